@@ -633,6 +633,9 @@ func heldLock(fn *ssa.Function, at ssa.Instruction) (exclusive bool, shared bool
 		if !domInstr(c, at) {
 			continue
 		}
+		if releasedBetween(fn, c, at) {
+			continue
+		}
 		switch f.Name() {
 		case "Lock":
 			exclusive = true
@@ -641,6 +644,26 @@ func heldLock(fn *ssa.Function, at ssa.Instruction) (exclusive bool, shared bool
 		}
 	}
 	return
+}
+
+// releasedBetween: a non-deferred Unlock/RUnlock lies after the lock call and before at on every path.
+func releasedBetween(fn *ssa.Function, lock ssa.CallInstruction, at ssa.Instruction) bool {
+	for _, c := range allCalls(fn) {
+		f := c.Common().StaticCallee()
+		if f == nil || !(f.Name() == "Unlock" || f.Name() == "RUnlock") {
+			continue
+		}
+		if !(typeIsRecv(f, "sync", "Mutex") || typeIsRecv(f, "sync", "RWMutex")) {
+			continue
+		}
+		if _, isDefer := c.(*ssa.Defer); isDefer {
+			continue
+		}
+		if domInstr(lock, c) && domInstr(c, at) {
+			return true
+		}
+	}
+	return false
 }
 
 // ruleSharedWrite: no unsynchronised write to long-lived state on the request path.
